@@ -134,9 +134,10 @@ class Hist5(ig.Hist):
         return ("helper", x, ("transform_top", None), h)
 
     # ---- relations
-    def rel_copy_vs_inplace(self, x, cid):
+    def rel_copy_vs_inplace(self, x, cid, op=None):
         """y = x.h(args); c = deepcopy(x); c.h(args, _inplace=True); y and c agree on every attribute"""
-        op = self.random_call(x, cid, inplace=False)
+        if op is None:
+            op = self.random_call(x, cid, inplace=False)
         op[3]["if_"] = True
         g = self.begin_group()
         mark = len(self.ops)
@@ -405,3 +406,224 @@ def plain_case(rng, n_ops=6):
             ops.append((("setattr", x, a["aid"], val(a)), None))
             n += 1
     return sanitize({"table": table, "ops": ops, "nd": nd, "groups": []})
+
+
+# ------------------------------------------------------------------ invalidation chains
+# Tables whose `invalidated_by` declarations form CHAINS (a -> b -> c, longer ones, diamonds,
+# cycles, '*' in the middle) and histories that reach the states in which a chain matters:
+# an attribute in the middle of the chain has no default and holds nothing (never assigned,
+# or reset just before) while the attributes further along hold non-default values; then the
+# head (or any other attribute) is changed by every scalar / top-level helper, assignment and
+# deletion, copy-on-write and in place.  The documented state afterwards has EVERY attribute
+# that depends on the changed one, directly or through the chain, back at its default --
+# whether or not the attributes in between held anything.  (`inst_gen.gen_table` has one
+# dependant of attribute 1 and nothing depending on that dependant.)
+HEAD, MID, END, TAIL, MID2, BY, COLL, SUB = 1, 3, 5, 6, 7, 2, 50, 8
+
+
+def chain_table(rng):
+    decl = lambda: rng.choice(["plain", "Attr", "field"])
+    frozen = rng.random() < 0.1
+    k1 = {"id": 1, "eager": True, "frozen": False, "key": None, "attrs": [
+        {"aid": 1, "ty": INT, "default": V(0), "decl": "plain"}]}
+    shape = rng.choice(["chain", "chain", "chain3", "chain3", "diamond", "cycle", "star", "fork"])
+    inv = {HEAD: [], MID: [HEAD], END: [MID], TAIL: [], MID2: None, BY: [], COLL: None}
+    if shape == "chain3":
+        inv[TAIL] = [END]
+    elif shape == "diamond":
+        inv[MID2] = [HEAD]
+        inv[END] = [MID, MID2] if rng.random() < 0.5 else [MID2]
+        inv[TAIL] = rng.choice([[], [MID]])
+    elif shape == "cycle":
+        inv[HEAD] = rng.choice([[END], [TAIL]])
+        inv[TAIL] = [END]
+    elif shape == "star":
+        inv[MID] = [99]
+        inv[TAIL] = rng.choice([[], [END]])
+    elif shape == "fork":
+        inv[TAIL] = [MID]
+        inv[MID] = rng.choice([[HEAD], [HEAD, BY]])
+    if rng.random() < 0.35:
+        inv[COLL] = [rng.choice([MID, END])]
+    mid_default = None if rng.random() < 0.85 else NONE
+    attrs = [
+        {"aid": HEAD, "ty": INT, "default": rng.choice([None, V(3), V(3)]), "decl": decl(),
+         "prepare": rng.choice([None, None, None, ("id",), ("addint", 1)]), "inv_by": inv[HEAD]},
+        {"aid": BY, "ty": STR, "default": rng.choice([None, S(7), S(7)]), "decl": decl(), "inv_by": inv[BY]},
+        {"aid": MID, "ty": ("opt", INT), "default": mid_default, "decl": "Attr", "inv_by": inv[MID]},
+        {"aid": END, "ty": INT, "default": rng.choice([None, V(4), V(4), V(0)]), "decl": "Attr",
+         "prepare": rng.choice([None, None, None, ("addint", 1)]), "inv_by": inv[END]},
+        {"aid": TAIL, "ty": STR, "default": rng.choice([None, S(7), S(0)]), "decl": "Attr" if inv[TAIL] else decl(),
+         "inv_by": inv[TAIL]},
+    ]
+    if inv[MID2] is not None:
+        attrs.append({"aid": MID2, "ty": ("opt", INT), "default": None, "decl": "Attr", "inv_by": inv[MID2]})
+    if inv[COLL] is not None:
+        d, f = rng.choice([(("list", [V(1), V(2)]), None), (None, ("list", [])), (None, ("list", [V(3)])), (None, None)])
+        attrs.append({"aid": COLL, "ty": ("list", INT), "default": d, "factory": f, "decl": "Attr", "inv_by": inv[COLL]})
+    if rng.random() < 0.5:       # the declaration order is the order in which the model resets
+        head, rest = attrs[:1], attrs[1:]
+        rng.shuffle(rest)
+        attrs = head + rest if rng.random() < 0.5 else rest + head
+    k2 = {"id": 2, "eager": rng.random() < 0.5, "frozen": frozen, "attrs": attrs, "post_copy": None}
+    sub = []
+    if rng.random() < 0.4:       # the spec subclass re-defaults the end of the chain
+        sub.append({"aid": END, "inherited": True, "override": V(9)})
+    if rng.random() < 0.5:       # ... and declares a further dependant of an inherited attribute
+        sub.append({"aid": SUB, "ty": INT, "default": rng.choice([None, V(1), V(1)]), "decl": "Attr",
+                    "inv_by": [rng.choice([END, MID, TAIL])]})
+    k3 = {"id": 3, "base": 2, "eager": rng.random() < 0.5, "frozen": frozen, "frozen_inherited": True, "attrs": sub}
+    return [k1, k2, k3]
+
+
+def _topo(attrs):
+    """attributes ordered so that an attribute comes after the attributes it is invalidated by
+    (cycles: broken at the attribute met again)"""
+    by = {a["aid"]: a for a in attrs}
+    out, seen = [], set()
+
+    def visit(a, path):
+        if a["aid"] in seen or a["aid"] in path:
+            return
+        for x in a.get("inv_by") or []:
+            for b in (attrs if x == 99 else [by[x]] if x in by else []):
+                if b is not a:
+                    visit(b, path | {a["aid"]})
+        if a["aid"] not in seen:
+            seen.add(a["aid"])
+            out.append(a)
+    for a in attrs:
+        visit(a, frozenset())
+    return out
+
+
+def chain_case(rng, rounds=2):
+    table = chain_table(rng)
+    _, heap0 = ic.resolve_table(table)
+    h = Hist5(rng, table, len(heap0))
+    frozen = table[1]["frozen"]
+    cid = rng.choice([2, 2, 3])
+    attrs = h.attrs_of(cid)
+    by = {a["aid"]: a for a in attrs}
+    no_default = lambda a: a.get("default") is None and a.get("factory") is None and "override" not in a
+    sub_over = {a["aid"] for a in table[2]["attrs"] if "override" in a} if cid == 3 else set()
+    empties = [a for a in attrs if a.get("inv_by") and no_default(a) and a["aid"] not in sub_over
+               and a["ty"] == ("opt", INT)]          # the attributes left empty in the middle of a chain
+    empty_ids = {a["aid"] for a in empties}
+    assigned_mid = rng.random() < 0.3                # ... assigned at first and reset before the change
+    kw = []
+    for a in attrs:
+        if a["aid"] in empty_ids:
+            if assigned_mid:
+                kw.append((a["aid"], V(rng.choice([1, 2]))))
+        elif not a.get("inv_by") and rng.random() < (0.8 if no_default(a) else 0.4):
+            kw.append((a["aid"], h.value_for(a, False)))
+    rng.shuffle(kw)
+    x = h.add(("construct", cid, None, kw), ("inst", cid))
+
+    def flags(inplace=None):
+        f = {"inplace": (rng.random() < 0.5) if inplace is None else inplace, "if_": True}
+        if frozen:
+            f["inplace"] = False
+        return f
+
+    def step(op, f):
+        """issue a helper call; a copy-on-write call moves on to its result (mostly)"""
+        nonlocal x
+        r = h.add(op, ("inst", cid))
+        if not f["inplace"] and rng.random() < 0.8:
+            x = r
+
+    def assign(a):
+        """a non-default value for attribute a, by one of the writing forms"""
+        v = h.value_for(a, False)
+        if a["ty"] == INT:
+            v = V(rng.choice([11, 12, 13]))
+        elif a["ty"] == STR:
+            v = S(rng.choice([8, 9]))
+        elif a["ty"] == ("opt", INT):
+            v = V(rng.choice([11, 12]))
+        r = rng.random()
+        f = flags()
+        if r < 0.25 and not frozen:
+            h.add(("setattr", x, a["aid"], v), ("none",))
+        elif r < 0.75:
+            step(("helper", x, ("with", a["aid"]), dict(f, pos=[v])), f)
+        else:
+            step(("helper", x, ("update_top", None), dict(f, kw=[(a["aid"], v)])), f)
+
+    def empty_out(a):
+        f = flags()
+        if rng.random() < 0.3 and not frozen:
+            h.add(("delattr", x, a["aid"]), ("none",))
+        else:
+            step(("helper", x, ("reset", a["aid"]), f), f)
+
+    def change(a):
+        """change attribute a by one of the forms of the property: with_/update_/transform_/reset_<a>,
+        update/transform with the attribute among the keywords, reset(), obj.a = v, del obj.a"""
+        form = rng.choice(["with", "update", "transform", "reset", "update_top", "transform_top", "reset_top",
+                           "setattr", "delattr", "pair", "pair"])
+        if frozen and form in ("setattr", "delattr"):
+            form = "with"
+        if a["ty"][0] == "list" and form in ("update",):
+            form = "with"
+        f = flags()
+        if form in ("with", "update", "transform", "reset"):
+            op = h.scalar_call(x, cid, a, form, f["inplace"])
+            op[3]["if_"] = True if rng.random() < 0.9 else op[3]["if_"]
+            step(op, op[3])
+        elif form == "update_top":
+            others = [b for b in attrs if b["aid"] != a["aid"] and not b.get("inv_by") and b["aid"] not in empty_ids]
+            kws = [(a["aid"], h.value_for(a, False))]
+            for b in rng.sample(others, min(len(others), rng.choice([0, 0, 1]))):
+                kws.append((b["aid"], h.value_for(b, False)))
+            rng.shuffle(kws)
+            step(("helper", x, ("update_top", None), dict(f, kw=kws)), f)
+        elif form == "transform_top":
+            kwfn = [(a["aid"], h.pure_fn(a["ty"]))]
+            if rng.random() < 0.3:      # ... and a transform of a dependant, which sees the value after the reset
+                deps = [b for b in attrs if b.get("inv_by") and b["aid"] != a["aid"] and b["ty"] == INT]
+                if deps:
+                    kwfn.append((rng.choice(deps)["aid"], rng.choice([("id",), ("addint", 1)])))
+            step(("helper", x, ("transform_top", None), dict(f, kwfn=kwfn)), f)
+        elif form == "reset_top":
+            step(("helper", x, ("reset_top", None), f), f)
+        elif form == "setattr":
+            h.add(("setattr", x, a["aid"], h.value_for(a, False)), ("none",))
+        elif form == "delattr":
+            h.add(("delattr", x, a["aid"]), ("none",))
+        else:                           # copy-on-write run vs in-place run on a clone
+            kind = rng.choice(["with", "update", "transform", "reset", "update_top"])
+            if a["ty"][0] == "list" and kind == "update":
+                kind = "with"
+            if frozen:
+                return change(a)
+            if kind == "update_top":
+                op = ("helper", x, ("update_top", None), {"inplace": False, "if_": True, "kw": [(a["aid"], h.value_for(a, False))]})
+            else:
+                op = h.scalar_call(x, cid, a, kind, False)
+            h.rel_copy_vs_inplace(x, cid, op=op)
+
+    order = _topo(attrs)
+    for rnd in range(rounds):
+        if (assigned_mid and rnd == 0) or (rnd > 0 and rng.random() < 0.3):
+            # fill the middle and empty it again: what depends on it is assigned afterwards
+            for a in empties:
+                if rnd > 0:
+                    assign(a)
+                empty_out(a)
+        for a in order:                 # upstream first: a later assignment resets what depends on it
+            if a.get("inv_by") and a["aid"] not in empty_ids and rng.random() < 0.85:
+                assign(a)
+        heads = [a for a in attrs if not a.get("inv_by")] or attrs
+        r = rng.random()
+        if r < 0.7:
+            a = by[HEAD]
+        elif r < 0.85:
+            a = rng.choice(heads)
+        else:
+            a = rng.choice(attrs)
+        change(a)
+    ops, groups = h.ops, (h.groups or [])
+    return sanitize({"table": table, "ops": ops, "nd": len(heap0), "groups": groups})
